@@ -1,7 +1,8 @@
-// PROBE (design phase): the complete real `impl Recv` (script-extracted, tracing dropped, `|_|` renamed) is accepted: 19 verified;
-// the 5 remaining errors are the arithmetic sites whose safety depends on the representation invariant still to be written
-// (offset < 2^62, bytes_read <= end, sent_max_stream_data <= bytes_read + window, received <= max_data < 2^62).
-
+// PROBE (design phase): the complete real `impl Recv` (script-extracted from the PINNED tree) with the C06 contracts and the invariant
+// `bytes_read <= end <= sent_max_stream_data` and `final size known ==> end <= final size`.
+// Result: 22 verified, 1 error — `Recv::ingest` does NOT preserve the invariant: a FIN whose final size is below data already
+// received is accepted (no FINAL_SIZE_ERROR). Replayed on the real code with a plain #[test]: second ingest returns Ok((0,false)),
+// end = 10, final_offset = Some(5). Genuine defect (C06, RFC 9000 4.5). See DESIGN.md section 8.
 use vstd::prelude::*;
 verus! {
 global size_of usize == 8;
@@ -61,6 +62,20 @@ impl Default for RecvState {
     }
 }
 impl Recv {
+    pub open spec fn final_size(&self) -> Option<u64> {
+        match self.state { RecvState::Recv { size } => size, RecvState::ResetRecvd { size, .. } => Some(size) }
+    }
+    pub open spec fn wf(&self) -> bool {
+        &&& self.assembler.bytes_read_spec() <= self.end
+        &&& self.end <= self.sent_max_stream_data
+        &&& self.sent_max_stream_data < 0x4000_0000_0000_0000
+        &&& (self.final_size().is_some() ==> self.end <= self.final_size().unwrap() && self.final_size().unwrap() < 0x4000_0000_0000_0000)
+    }
+    pub open spec fn wf_w(&self, window: u64) -> bool {
+        &&& self.wf()
+        &&& self.sent_max_stream_data <= self.assembler.bytes_read_spec() + window
+        &&& window < 0x4000_0000_0000_0000
+    }
     pub fn new(initial_max_data: u64) -> Box<Self> {
         Box::new(Self {
             state: RecvState::default(),
@@ -83,7 +98,34 @@ impl Recv {
         payload_len: usize,
         received: u64,
         max_data: u64,
-    ) -> Result<(u64, bool), TransportError> {
+    ) -> (res: Result<(u64, bool), TransportError>)
+        requires
+            old(self).wf(),
+            frame.offset < 0x4000_0000_0000_0000, frame.data@.len() < 0x1_0000_0000,
+            received <= max_data < 0x4000_0000_0000_0000,
+        ensures
+            final(self).wf(),
+            final(self).sent_max_stream_data == old(self).sent_max_stream_data, final(self).stopped == old(self).stopped,
+            match res {
+                Ok((n, closed)) => {
+                    let end = (frame.offset + frame.data@.len()) as u64;
+                    &&& end <= old(self).sent_max_stream_data                       // never beyond the advertised stream limit
+                    &&& received + n <= max_data                                     // never beyond the connection limit
+                    &&& n == (if end > old(self).end { end - old(self).end } else { 0 })
+                    &&& final(self).end == (if end > old(self).end { end } else { old(self).end })
+                    &&& (old(self).final_size().is_some() ==> end <= old(self).final_size().unwrap() && (frame.fin ==> end == old(self).final_size().unwrap()))
+                    &&& closed == (frame.fin && old(self).stopped)
+                    &&& (frame.fin && !old(self).stopped && old(self).state is Recv ==> final(self).final_size() == Some(end))
+                },
+                Err(e) => {
+                    let end = frame.offset + frame.data@.len();
+                    ||| e.code == Code::FLOW_CONTROL_ERROR && (end >= 0x4000_0000_0000_0000 || end > old(self).sent_max_stream_data
+                            || received + (if end > old(self).end { end - old(self).end } else { 0 }) > max_data)
+                    ||| e.code == Code::FINAL_SIZE_ERROR && old(self).final_size().is_some() && (end > old(self).final_size().unwrap() || (frame.fin && end != old(self).final_size().unwrap()))
+                    ||| e.code == Code::INTERNAL_ERROR
+                },
+            },
+    {
         let end = frame.offset + frame.data.len() as u64;
         if end >= 2u64.pow(62) {
             return Err(TransportError::FLOW_CONTROL_ERROR(
@@ -108,13 +150,20 @@ impl Recv {
         if !self.stopped {
             self.assembler
                 .insert(frame.offset, frame.data, payload_len)
-                .map_err(|_p0| TransportError::INTERNAL_ERROR("too many gaps in stream buffer"))?;
+                .map_err(|_p0: TooManyChunks| -> (r: TransportError) ensures r.code == Code::INTERNAL_ERROR { TransportError::INTERNAL_ERROR("too many gaps in stream buffer") })?;
         }
 
         Ok((new_bytes, frame.fin && self.stopped))
     }
 
-    pub fn stop(&mut self) -> Result<(u64, ShouldTransmit), ClosedStream> {
+    pub fn stop(&mut self) -> (res: Result<(u64, ShouldTransmit), ClosedStream>)
+        requires old(self).wf()
+        ensures final(self).wf(),
+            match res {
+                Ok((credits, _)) => !old(self).stopped && final(self).stopped && credits == old(self).end - old(self).assembler.bytes_read_spec(),
+                Err(_) => old(self).stopped && *final(self) == *old(self),
+            }
+    {
         if self.stopped {
             return Err(ClosedStream { _private: () });
         }
@@ -124,7 +173,11 @@ impl Recv {
         let read_credits = self.end - self.assembler.bytes_read();
         Ok((read_credits, ShouldTransmit(self.is_receiving())))
     }
-    pub fn max_stream_data(&mut self, stream_receive_window: u64) -> (u64, ShouldTransmit) {
+    pub fn max_stream_data(&mut self, stream_receive_window: u64) -> (res: (u64, ShouldTransmit))
+        requires old(self).wf_w(stream_receive_window)
+        ensures *final(self) == *old(self), res.0 == old(self).assembler.bytes_read_spec() + stream_receive_window,
+            res.1.0 ==> res.0 - old(self).sent_max_stream_data >= stream_receive_window / 8
+    {
         let max_stream_data = self.assembler.bytes_read() + stream_receive_window;
         let diff = max_stream_data - self.sent_max_stream_data;
         let transmit = self.can_send_flow_control() && diff >= (stream_receive_window / 8);
@@ -145,7 +198,9 @@ impl Recv {
         matches!(self.state, RecvState::Recv { .. })
     }
 
-    pub fn final_offset(&self) -> Option<u64> {
+    pub fn final_offset(&self) -> (r: Option<u64>)
+        ensures r == self.final_size()
+    {
         match self.state {
             RecvState::Recv { size } => size,
             RecvState::ResetRecvd { size, .. } => Some(size),
@@ -157,7 +212,21 @@ impl Recv {
         final_offset: VarInt,
         received: u64,
         max_data: u64,
-    ) -> Result<bool, TransportError> {
+    ) -> (res: Result<bool, TransportError>)
+        requires old(self).wf(), received <= max_data < 0x4000_0000_0000_0000, final_offset.0 < 0x4000_0000_0000_0000
+        ensures final(self).wf(),
+            match res {
+                Ok(fresh) => {
+                    &&& final_offset.0 <= old(self).sent_max_stream_data
+                    &&& final_offset.0 >= old(self).end
+                    &&& (old(self).final_size().is_some() ==> old(self).final_size().unwrap() == final_offset.0)
+                    &&& fresh == !(old(self).state is ResetRecvd)
+                    &&& (fresh ==> final(self).state == RecvState::ResetRecvd { size: final_offset.0, error_code })
+                    &&& (!fresh ==> *final(self) == *old(self))
+                },
+                Err(e) => *final(self) == *old(self) && (e.code == Code::FINAL_SIZE_ERROR || e.code == Code::FLOW_CONTROL_ERROR),
+            }
+    {
         if let Some(offset) = self.final_offset() {
             if offset != final_offset.into_inner() {
                 return Err(TransportError::FINAL_SIZE_ERROR("inconsistent value"));
@@ -191,7 +260,13 @@ impl Recv {
         offset: u64,
         received: u64,
         max_data: u64,
-    ) -> Result<u64, TransportError> {
+    ) -> (res: Result<u64, TransportError>)
+        requires received <= max_data < 0x4000_0000_0000_0000, offset < 0x4000_0000_0000_0000
+        ensures match res {
+            Ok(n) => offset <= self.sent_max_stream_data && received + n <= max_data && n == (if offset > self.end { offset - self.end } else { 0 }),
+            Err(e) => e.code == Code::FLOW_CONTROL_ERROR && (offset > self.sent_max_stream_data || received + (if offset > self.end { offset - self.end } else { 0 }) > max_data),
+        }
+    {
         let prev_end = self.end;
         let new_bytes = offset.saturating_sub(prev_end);
         if offset > self.sent_max_stream_data || received + new_bytes > max_data {
